@@ -10,7 +10,8 @@ package vm
 //@ func (AccountManager).Snapshot   trusted
 //@   modifies nothing
 //@ func (AccountManager).RevertToSnapshot   trusted
-//@   modifies ghall("equity"), ghall("hasEquity"), ghall("supply"), ghall("balance")
+//@   modifies ghall("equity"), ghall("hasEquity"), ghall("supply"), ghall("balance"), gh("lastRevert", recv)
+//@   ensures gh("lastRevert", recv) == arg0
 //@ func (AssetDb).GetAssetCode   trusted
 //@   modifies nothing
 //@ func (ContractRef).GetAddress   pure trusted
@@ -30,3 +31,76 @@ package vm
 //@   assert @call NewContract#0: !destroyAsset && s != r && !old(types.hasEquity(r, assetId)) ==> types.equityOf(r, assetId) == val(amount)
 //@   assert @call NewContract#0: !destroyAsset && s == r ==> types.equityOf(s, assetId) == old(types.equityOf(s, assetId))
 //@   assert @call NewContract#0: destroyAsset && asset.IsDivisible ==> types.supplyOf(issuerAcc, senderEquity.AssetCode) == old(types.supplyOf(issuerAcc, senderEquity.AssetCode)) - val(amount) && types.equityOf(s, assetId) == old(types.equityOf(s, assetId)) - val(amount)
+
+// ---------------------------------------------------------------------------------------------------------------------
+// C16: gas accounting of the EVM entry points.
+
+//@ func (*Contract).UseGas
+//@   props C16
+//@   requires c != nil
+//@   modifies c.Gas
+//@   ensures result == (old(c.Gas) >= gas)
+//@   ensures result ==> c.Gas == old(c.Gas) - gas
+//@   ensures !result ==> c.Gas == old(c.Gas)
+//@   nopanic
+
+// EIP-150 (all but one 64th): the gas handed to a callee never exceeds what the caller has left after paying the base cost
+//@ func callGas
+//@   props C16
+//@   requires callCost != nil && val(callCost) >= 0
+//@   modifies nothing
+//@   ensures result1 == nil && gasTable.CreateBySuicide > 0 && base <= availableGas ==> result0 <= (availableGas - base) - (availableGas - base) / 64
+//@   ensures result1 == nil && gasTable.CreateBySuicide == 0 ==> int(result0) == val(callCost)
+//@   ensures result1 != nil ==> result0 == 0 && result1 == errGasUintOverflow
+//@   nopanic
+
+// function-typed fields of vm.Context (implemented by chain/transaction.CanTransfer / Transfer, both under contract for C05)
+//@ func type:CanTransferFunc   trusted
+//@   modifies nothing
+//@ func type:TransferFunc   trusted
+//@   modifies ghall("balance")
+//@ func (Tracer).CaptureStart   trusted
+//@   modifies nothing
+//@ func (Tracer).CaptureEnd   trusted
+//@   modifies nothing
+
+// The interpreter and the precompiles (jump-table dispatch, T6): ASSUMED not to add gas to the running contract.
+// UseGas above is proved to only ever decrease Contract.Gas; the opcodes that write it are not yet under contract.
+//@ func run   trusted
+//@   modifies all
+//@   ensures contract.Gas <= old(contract.Gas)
+
+//@ func (*EVM).AddEvent   trusted
+//@   modifies nothing
+
+//@ func (*EVM).Call
+//@   props C16
+//@   requires evm != nil && caller != nil && value != nil
+//@   ensures leftOverGas <= gas
+//@   ensures old(evm.depth) > int(params.CallCreateDepth) && !(old(evm.vmConfig.NoRecursion) && old(evm.depth) > 0) ==> err == ErrDepth && leftOverGas == gas
+//@   assert @call run#0: evm.depth <= int(params.CallCreateDepth)
+//@   ensures err != nil && err != ErrDepth && err != ErrInsufficientBalance && err != ErrContractCodeLoadFail ==> gh("lastRevert", evm.am) == snapshot
+
+//@ func (*EVM).StaticCall
+//@   props C16
+//@   requires evm != nil && evm.interpreter != nil && caller != nil
+//@   ensures leftOverGas <= gas
+//@   ensures old(evm.depth) > int(params.CallCreateDepth) && !(old(evm.vmConfig.NoRecursion) && old(evm.depth) > 0) ==> err == ErrDepth && leftOverGas == gas
+//@   assert @call run#0: evm.depth <= int(params.CallCreateDepth) && evm.interpreter.readOnly
+//@   ensures err != nil && err != ErrDepth && err != ErrContractCodeLoadFail ==> gh("lastRevert", evm.am) == snapshot
+
+//@ func (*EVM).CallCode
+//@   props C16
+//@   requires evm != nil && caller != nil && value != nil
+//@   ensures leftOverGas <= gas
+//@   ensures old(evm.depth) > int(params.CallCreateDepth) && !(old(evm.vmConfig.NoRecursion) && old(evm.depth) > 0) ==> err == ErrDepth && leftOverGas == gas
+//@   assert @call run#0: evm.depth <= int(params.CallCreateDepth)
+//@   ensures err != nil && err != ErrDepth && err != ErrInsufficientBalance && err != ErrContractCodeLoadFail ==> gh("lastRevert", evm.am) == snapshot
+
+//@ func (*EVM).DelegateCall
+//@   props C16
+//@   requires evm != nil && caller != nil
+//@   ensures leftOverGas <= gas
+//@   ensures old(evm.depth) > int(params.CallCreateDepth) && !(old(evm.vmConfig.NoRecursion) && old(evm.depth) > 0) ==> err == ErrDepth && leftOverGas == gas
+//@   assert @call run#0: evm.depth <= int(params.CallCreateDepth)
+//@   ensures err != nil && err != ErrDepth && err != ErrContractCodeLoadFail ==> gh("lastRevert", evm.am) == snapshot
